@@ -330,6 +330,15 @@ def finish(pid, spec, tier, seed, results, wall, post):
             stub_hits[k] = stub_hits.get(k, 0) + v
         for k, v in r["outcomes"].items():
             outcomes[k] = outcomes.get(k, 0) + v
+    # vacuity guards: units whose every path was cut by an assumption, and ops that never returned normally
+    vacuous = [f"{r['harness']}:{json.dumps(r['params'], default=str)[:120]}" for r in results if r["paths"] and r["paths"] == r["aborted"]]
+    per_op = {}
+    for r in results:
+        key = f"{r['harness']}:{r['params'].get('op') or r['params'].get('kind') or r['params'].get('how') or r['params'].get('what') or ''}"
+        d = per_op.setdefault(key, {})
+        for k, v in r["outcomes"].items():
+            d[k[:40] if not k.startswith("config:") else "config"] = d.get(k[:40] if not k.startswith("config:") else "config", 0) + v
+    never_returned = sorted(k for k, d in per_op.items() if d and not any(o.startswith(("returned", "ok", "config")) for o in d))
     samples = [r["sample"] for r in results if r["sample"]][:4]
     for path, rec in violations[:2]:
         samples.append({"violation": rec["clause"], "params": rec["params"], "model": rec["model"], "info": rec.get("info")})
@@ -347,6 +356,9 @@ def finish(pid, spec, tier, seed, results, wall, post):
         "functions_encoded": fns,
         "stubs_hit": stub_hits,
         "outcomes": outcomes,
+        "vacuous_units_all_paths_cut_by_assumptions": len(vacuous),
+        "vacuous_units_examples": vacuous[:5],
+        "ops_that_never_returned_normally": never_returned[:40],
         "index_concretizations": sum(r["concretizations"] for r in results),
         "violating_paths": sum(r["violating_paths"] for r in results),
         "confirmed_counterexamples": len(confirmed),
